@@ -68,9 +68,9 @@ func scalarBytes(x *big.Int) []byte {
 
 // blsKey is a library private key whose scalar the harness knows.
 type blsKey struct {
-	sk crypto.PrivateKey
-	pk crypto.PublicKey
-	x  *big.Int
+	sk  crypto.PrivateKey
+	pk  crypto.PublicKey
+	x   *big.Int
 	how string
 }
 
@@ -244,8 +244,8 @@ func hashToG1(g *gen.G, msg []byte, h hash.Hasher) bls381.G1 {
 }
 
 type cand struct {
-	b    []byte
-	kind string
+	b       []byte
+	kind    string
 	isPoint bool // decodes to a curve point (rejection decided by subgroup test / pairing, not parsing)
 }
 
@@ -253,7 +253,9 @@ type cand struct {
 func sigCandidates(g *gen.G, s bls381.G1, label string) []cand {
 	exact := bls381.G1Compress(s)
 	var out []cand
-	add := func(b []byte, kind string, isPoint bool) { out = append(out, cand{append([]byte{}, b...), kind, isPoint}) }
+	add := func(b []byte, kind string, isPoint bool) {
+		out = append(out, cand{append([]byte{}, b...), kind, isPoint})
+	}
 	add(exact, "exact", true)
 	// bit flips
 	for i, n := 0, g.Int(label+"Flips", 1, 3); i < n; i++ {
